@@ -53,16 +53,16 @@ theorem roundtrip_lawful_on_domain_partial (S : Schema) (C : Codec) (Rep : Tree 
 
 /-- a value under a non-dataclass annotation (`Any`, builtins, `list[C]`, `dict[str, C]`, a string) is never
 touched by `datify` — so plain values there always survive, and instances there never come back -/
-theorem datify_ignores_nonclass_annotation (S : Schema) (a : Ann) (t : Tree) (h : classOf S a = none) :
+theorem datify_ignores_nonclass_annotation (S : Schema) (a : Ann) (t : Tree) (h : candidates S a = []) :
     datify S a t = t := datify_nonclass S a t h
 
 /-- `_fromdict` rejects (ValueError) a dict with a key that is not a field of the class -/
 theorem fromdict_rejects_unknown_key (S : Schema) (c : Nat) (k : Class) (ks : List Key) (vs : List Tree)
     (name : Key) (hk : S[c]? = some k) (hm : name ∈ ks) (hu : k.field? name = none) :
     fromdict S c (.dict ks vs) = .error .valueError := by
-  have hall : ks.all (fun n => (k.field? n).isSome) = false := by
-    rw [List.all_eq_false]; exact ⟨name, hm, by simp [hu]⟩
-  simp [fromdict, datify, classOf, hk, construct, hall]
+  have hr : construct c k ks (datifyL S k ks vs) (.dict ks vs) = .dict ks vs :=
+    construct_reject _ _ _ _ _ ⟨name, hm, hu⟩
+  simp [fromdict, datify, candidates, hk, hr, pick]
 
 /-! ### the guard cannot be dropped: concrete witnesses (replayed on the implementation in `corpus()`) -/
 
@@ -94,7 +94,7 @@ theorem roundtrip_fails_in_string_annotated_field :
 
 /-- the same instance under `Optional[P]` IS rebuilt (after the fix commit) -/
 theorem roundtrip_holds_in_optional_annotated_field :
-    fromdict [exP, exL (.opt 0)] 1 (dictify (.obj 1 [[97]] [exInner])) = .ok (.obj 1 [[97]] [exInner]) := by rfl
+    fromdict [exP, exL (.opt [0])] 1 (dictify (.obj 1 [[97]] [exInner])) = .ok (.obj 1 [[97]] [exInner]) := by rfl
 
 /-- C28-K2: a plain empty dict in a `P`-annotated field comes back as `P()` -/
 theorem roundtrip_fails_plain_dict_in_class_field :
@@ -106,15 +106,47 @@ theorem roundtrip_fails_plain_dict_in_class_field :
       = .ok (.obj 1 [[97]] [.obj 0 [[120]] [.int 0]]) from rfl]
   simp
 
+/-! ### unions of several data-object classes (`Circle | Square | None`, `Optional[Union[Circle, Square]]`) -/
+
+/-- `Circle` = one field `r : Any = 0`;  `Square` = one field `s : Any = 0`;  `Box` = one field `r : Any = 1` -/
+def exCircle : Class := ⟨[⟨[114], .any, some (.int 0)⟩]⟩
+def exSquare : Class := ⟨[⟨[115], .any, some (.int 0)⟩]⟩
+def exBox : Class := ⟨[⟨[114], .any, some (.int 1)⟩]⟩
+
+/-- a value of the SECOND member of a union round-trips when the first member lacks one of its field names
+(instance of the guard `wt`, proved through the general theorem) -/
+theorem union_second_member_roundtrips :
+    fromdict [exCircle, exSquare, exL (.opt [0, 1])] 2 (dictify (.obj 2 [[97]] [.obj 1 [[115]] [.int 3]]))
+      = .ok (.obj 2 [[97]] [.obj 1 [[115]] [.int 3]]) :=
+  fromdict_asdict_partial _ 2 _ _ (by
+    refine wt_obj_intro [] (exL (.opt [0, 1])) [] rfl (by simp) rfl (by decide) ⟨?_, trivial⟩
+    refine wt_obj_intro [(0, exCircle)] exSquare [] rfl ?_ rfl (by decide) ⟨trivial, trivial⟩
+    intro p hp
+    simp only [List.mem_singleton] at hp; subst hp
+    exact ⟨[115], by simp [exSquare], by simp [exCircle, Class.field?]⟩)
+
+/-- witness that the guard is needed: `Circle` and `Box` have the same field names, so a `Box` stored in a
+`Circle | Box | None` field comes back as a `Circle` (known finding C28-K3) -/
+theorem union_ambiguous_members_fail :
+    fromdict [exCircle, exBox, exL (.opt [0, 1])] 2 (dictify (.obj 2 [[97]] [.obj 1 [[114]] [.int 3]]))
+      = .ok (.obj 2 [[97]] [.obj 0 [[114]] [.int 3]]) ∧
+    fromdict [exCircle, exBox, exL (.opt [0, 1])] 2 (dictify (.obj 2 [[97]] [.obj 1 [[114]] [.int 3]]))
+      ≠ .ok (.obj 2 [[97]] [.obj 1 [[114]] [.int 3]]) := by
+  refine ⟨rfl, ?_⟩
+  rw [show fromdict [exCircle, exBox, exL (.opt [0, 1])] 2 (dictify (.obj 2 [[97]] [.obj 1 [[114]] [.int 3]]))
+      = .ok (.obj 2 [[97]] [.obj 0 [[114]] [.int 3]]) from rfl]
+  simp
+
 /-! ### non-vacuity: the guard is met by a concrete three-level nested instance, and the codec hypothesis by a codec -/
 
-def exS : Schema := [exP, exL (.dom 0), ⟨[⟨[98], .opt 1, none⟩, ⟨[103], .any, some .null⟩]⟩]
+def exS : Schema := [exP, exL (.dom 0), ⟨[⟨[98], .opt [1], none⟩, ⟨[103], .any, some .null⟩]⟩]
 def exX : Tree := .obj 2 [[98], [103]] [.obj 1 [[97]] [exInner], .list [.int 1, .dict [[122]] [.null]]]
 
-example : wt exS (.dom 2) exX := by
-  simp [exS, exX, exInner, exP, exL, wt, wtL, classOf, plainL, plain]
-example : fromdict exS 2 (dictify exX) = .ok exX := fromdict_asdict_partial exS 2 _ _ (by
-  simp [exS, exInner, exP, exL, wt, wtL, classOf, plainL, plain])
+theorem exX_wt : wt exS (.dom 2) exX := by
+  refine wt_obj_intro [] _ [] rfl (by simp) rfl (by decide) ⟨?_, ⟨rfl, rfl⟩, trivial⟩
+  refine wt_obj_intro [] (exL (.dom 0)) [] rfl (by simp) rfl (by decide) ⟨?_, trivial⟩
+  exact wt_obj_intro [] exP [] rfl (by simp) rfl (by decide) ⟨trivial, trivial⟩
+example : fromdict exS 2 (dictify exX) = .ok exX := fromdict_asdict_partial exS 2 _ _ exX_wt
 example : ∃ C : Codec, C.dec (C.enc (dictify exX)) = some (dictify exX) :=
   ⟨⟨fun _ => [], fun _ => some (dictify exX)⟩, rfl⟩
 
